@@ -16,13 +16,16 @@
       list element       parse_linked_list [T]            = [parse_term T]
       infix operand      parse_subgoal  T = R             = unify(parse_term T, parse_term R)
       query argument     parse_query    fn(T)             = make_query fn(parse_term T)
-  PROVED HERE ALSO (`as_argument_structured`, `as_complex_argument_structured`, `as_query_argument_structured`), for every
+  PROVED HERE ALSO (`as_argument_structured`, `as_complex_argument_structured`, `as_query_argument_structured`,
+  `as_list_element_structured`, and AMONG OTHER ARGUMENTS `among_other_arguments`, `complex_with_arguments`), for every
   STRUCTURED text T — lists, complex terms, quoted atoms, atoms with blanks, anything: a trimmed non-empty text without a
   backslash, without a comma outside its own quotes / parentheses / brackets, with its parentheses, brackets and quotes
   closed, in which `parse_term` finds no arithmetic infix (F3, below) —: as an argument of a complex term / built-in /
   function / query it is `parse_term T` (`Lemmas/ParseArgSim.lean`: the loop of `parse_arguments` and `unescape` + the flag
-  loop of `parse_term` run side by side over the text).
-  PARTIAL: structured texts as list elements and infix operands, and texts with backslashes (F4), are
+  loop of `parse_term` run side by side over the text), and — without a bar of its own either — as the element of a list
+  (`Lemmas/ParseListSim.lean`: `parse_linked_list` scans from the right; in a text whose quotes, parentheses and brackets are
+  closed the state of that scan just before a character is the state of the forward scan just after it).
+  PARTIAL: structured texts as infix operands, and texts with backslashes (F4), are
   decided by the contexts suite (random canonical terms + 100 special spellings + all strings up to length 4 / 5 over the 12
   characters the scanners treat specially, each parsed in the contexts by implementation and model).
   KNOWN FINDING F3 (open): a text with a top-level arithmetic infix (`$X + 1`) is a function term
@@ -31,6 +34,8 @@
 -/
 import SuironVerif.Lemmas.ParseToken
 import SuironVerif.Lemmas.ParseArgSim
+import SuironVerif.Lemmas.ParseListSim
+import SuironVerif.Lemmas.ParseArgsMulti
 namespace Suiron.C20
 open Suiron.Parse
 
@@ -129,6 +134,39 @@ theorem as_query_argument_structured (po : POps) (f : Nat) {fn T : Text} (hf : T
   simp only [hlast, Bool.false_eq_true, if_false, as_complex_argument_structured po f hf h hclosed hd hlen]
   cases parseTerm po (f + 2) T <;> simp [Res.bind, TermList.toList]
 
+/-- as a list element (no bar of its own, quotes closed) -/
+theorem as_list_element_structured (po : POps) (f : Nat) {T : Text} (h : Structured T)
+    (hbar : noTopBar T ⟨0, 0, false⟩ = true) (hclosed : (dpScan T ⟨0, 0, false⟩).oq = false) :
+    parseLinkedList po (f + 2) ('[' :: T ++ [']']) =
+      (parseTerm po (f + 1) T).bind fun t => .ok (.cons t Term.empty 1 false) := by
+  have hbal : dpScan T ⟨0, 0, false⟩ = ⟨0, 0, false⟩ := by
+    have h1 := h.balanced.1; have h2 := h.balanced.2
+    generalize dpScan T ⟨0, 0, false⟩ = d at h1 h2 hclosed
+    obtain ⟨r, s, q⟩ := d
+    simp only at h1 h2 hclosed
+    rw [h1, h2, hclosed]
+  exact parseLinkedList_structured po f T h.trimmed h.nonempty h.noBackslash h.noTopComma hbar hbal h.noInfix
+
+/-- AMONG OTHER ARGUMENTS: `parse_arguments (T1, T2, ..., Tn) = [parse_term T1, ..., parse_term Tn]` for structured texts
+    whose quotes are closed, written with `, ` between them -/
+theorem among_other_arguments (po : POps) (f : Nat) (as : List Text) (hne : as ≠ []) (hok : ∀ a ∈ as, ArgOK a) :
+    parseArguments po (f + 1) (joinArgs as) = parseAll (parseTerm po (f + 1)) as :=
+  parseArguments_multi po f as hne hok
+
+/-- and inside a complex term: `parse_complex fn(T1, ..., Tn) = fn(parse_term T1, ..., parse_term Tn)` -/
+theorem complex_with_arguments (po : POps) (f : Nat) {fn : Text} (hf : TokenText fn) (as : List Text)
+    (hd : fn.head? ≠ some '$') (hne : as ≠ []) (hok : ∀ a ∈ as, ArgOK a)
+    (hlen : fn.length + (joinArgs as).length + 2 ≤ 1000) :
+    parseComplex po (f + 2) (fn ++ '(' :: joinArgs as ++ [')']) =
+      (parseAll (parseTerm po (f + 2)) as).bind fun ts => .ok (.cplx (.cons (.atom (str fn)) (TermList.ofList ts))) :=
+  parseComplex_multi po f hf as hd hne hok hlen
+
+/-- non-vacuity: four arguments — a complex term, a list with a tail variable, a quoted atom with a comma, an atom with a blank -/
+example : ∀ a ∈ ["f(a, b)".toList, "[1, 2 | $T]".toList, "\"x, y\"".toList, "New York".toList], ArgOK a := by
+  intro a ha
+  simp only [List.mem_cons, List.mem_nil_iff, or_false] at ha
+  rcases ha with rfl | rfl | rfl | rfl <;> exact ⟨by decide, by decide, by decide, by decide, by rfl, by decide⟩
+
 /-- non-vacuity: a complex term holding a list with a quoted atom that contains a comma; a quoted atom with a comma;
     a list with a signed float and a tail variable; an atom with a blank -/
 example : Structured "f(a, [b, \"c, d\"])".toList ∧ (dpScan "f(a, [b, \"c, d\"])".toList ⟨0, 0, false⟩).oq = false :=
@@ -136,6 +174,9 @@ example : Structured "f(a, [b, \"c, d\"])".toList ∧ (dpScan "f(a, [b, \"c, d\"
 example : Structured "\"a, b\"".toList := ⟨by decide, by decide, by decide, by decide, by decide, by decide, by decide⟩
 example : Structured "[1, -2.5 | $T]".toList := ⟨by decide, by decide, by decide, by decide, by decide, by decide, by decide⟩
 example : Structured "New York".toList := ⟨by decide, by decide, by decide, by decide, by decide, by decide, by decide⟩
+example : noTopBar "f(a, [b | $T], \"x | y\")".toList ⟨0, 0, false⟩ = true ∧ (dpScan "f(a, [b | $T], \"x | y\")".toList ⟨0, 0, false⟩).oq = false ∧
+    Structured "f(a, [b | $T], \"x | y\")".toList :=
+  ⟨by decide, by decide, ⟨by decide, by decide, by decide, by decide, by decide, by decide, by decide⟩⟩
 
 /-! non-vacuity and witnesses -/
 def po0 : POps := ⟨fun _ => none, fun c => ('a'.toNat ≤ c.toNat && c.toNat ≤ 'z'.toNat) || ('A'.toNat ≤ c.toNat && c.toNat ≤ 'Z'.toNat)⟩
